@@ -32,7 +32,7 @@ using namespace icinga;
 
 namespace {
 
-struct PmObjSpec { bool svc; std::string host, name, vars; };
+struct PmObjSpec { bool svc; std::string host, name, vars, cc, cp, ec, ce; };
 std::vector<PmObjSpec> l_Specs;
 std::vector<ConfigObject::Ptr> l_Objs;     // in creation order
 ApiUser::Ptr l_User;
@@ -67,7 +67,11 @@ std::string Quote(const std::string& s)
 // v<sc>:<hexkey>:<hexval>  c<sc>:<hexvar> C<sc>:<hexvar>   operators: and or not
 std::string ScopeName(char c)
 {
-	switch (c) { case 'h': return "host"; case 's': return "service"; case 'o': return "obj"; }
+	switch (c) {
+		case 'h': return "host"; case 's': return "service"; case 'o': return "obj";
+		// the joined objects EvaluateFilter binds from the target's navigation fields
+		case 'k': return "check_command"; case 'p': return "check_period"; case 'e': return "event_command"; case 'z': return "command_endpoint";
+	}
 	throw std::runtime_error("bad scope");
 }
 
@@ -106,7 +110,17 @@ void InitOnce()
 {
 	if (l_Init) return;
 	l_Init = true;
-	LoadConfig("object CheckCommand \"pmdummy\" { command = [ \"/bin/true\" ] }\n");
+	// objects the inventories refer to through navigation fields (check_command, check_period, event_command,
+	// command_endpoint); a checkable with command_endpoint needs a zone that is the endpoint zone's parent
+	LoadConfig("object CheckCommand \"pmdummy\" { command = [ \"/bin/true\" ] }\n"
+		"object CheckCommand \"pmdummy2\" { command = [ \"/bin/true\" ] }\n"
+		"object EventCommand \"pm-ev1\" { command = [ \"/bin/true\" ] }\n"
+		"object EventCommand \"pm-ev2\" { command = [ \"/bin/true\" ] }\n"
+		"object TimePeriod \"pm-tp1\" { update = (tp, b, e) => { return [] } }\n"
+		"object TimePeriod \"pm-tp2\" { update = (tp, b, e) => { return [] } }\n"
+		"object Endpoint \"pm-m\" { }\nobject Zone \"pm-master\" { endpoints = [ \"pm-m\" ] }\n"
+		"object Endpoint \"pm-sat-a\" { }\nobject Zone \"pm-za\" { endpoints = [ \"pm-sat-a\" ]; parent = \"pm-master\" }\n"
+		"object Endpoint \"pm-sat-b\" { }\nobject Zone \"pm-zb\" { endpoints = [ \"pm-sat-b\" ]; parent = \"pm-master\" }\n");
 }
 
 void RemoveObject(const ConfigObject::Ptr& obj)
@@ -202,14 +216,26 @@ VOP(pm_match)
 	Out(std::string("pm_match r=") + (r ? "1" : "0"));
 }
 
+// navigation references: cc= check_command (default pmdummy), cp= check_period, ec= event_command, ce= command_endpoint
+static std::string PmNavText(const PmObjSpec& s)
+{
+	std::string r = "  check_command = " + Quote(s.cc.empty() ? "pmdummy" : s.cc) + "\n";
+	if (!s.cp.empty()) r += "  check_period = " + Quote(s.cp) + "\n";
+	if (!s.ec.empty()) r += "  event_command = " + Quote(s.ec) + "\n";
+	if (!s.ce.empty()) r += "  command_endpoint = " + Quote(s.ce) + "\n  zone = \"pm-master\"\n";
+	return r;
+}
+
 VOP(pm_host)
 {
-	l_Specs.push_back({false, "", HexDec(a.str("name")), a.str("vars", "-")});
+	l_Specs.push_back({false, "", HexDec(a.str("name")), a.str("vars", "-"),
+		HexDec(a.str("cc", "-")), HexDec(a.str("cp", "-")), HexDec(a.str("ec", "-")), HexDec(a.str("ce", "-"))});
 }
 
 VOP(pm_svc)
 {
-	l_Specs.push_back({true, HexDec(a.str("host")), HexDec(a.str("name")), a.str("vars", "-")});
+	l_Specs.push_back({true, HexDec(a.str("host")), HexDec(a.str("name")), a.str("vars", "-"),
+		HexDec(a.str("cc", "-")), HexDec(a.str("cp", "-")), HexDec(a.str("ec", "-")), HexDec(a.str("ce", "-"))});
 }
 
 // pm_user perms=<entry>;<entry>..   entry = <hexperm> | <hexperm>@<rpn filter>
@@ -221,15 +247,19 @@ VOP(pm_user)
 VOP(pm_load)
 {
 	InitOnce();
-	std::ostringstream c;
+	// one activation context per object: a batch is committed in parallel, which would make the registration order
+	// (= the order FindTargets enumerates) differ from run to run; the script order is the inventory order
 	for (auto& s : l_Specs) {
+		std::ostringstream oc;
 		if (!s.svc) {
-			c << "object Host " << Quote(s.name) << " {\n  check_command = \"pmdummy\"\n  enable_active_checks = false\n" << VarsText(s.vars) << "}\n";
+			oc << "object Host " << Quote(s.name) << " {\n" << PmNavText(s) << "  enable_active_checks = false\n" << VarsText(s.vars) << "}\n";
 		} else {
-			c << "object Service " << Quote(s.name) << " {\n  host_name = " << Quote(s.host) << "\n  check_command = \"pmdummy\"\n  enable_active_checks = false\n"
-			  << VarsText(s.vars) << "}\n";
+			oc << "object Service " << Quote(s.name) << " {\n  host_name = " << Quote(s.host) << "\n" << PmNavText(s) << "  enable_active_checks = false\n"
+			   << VarsText(s.vars) << "}\n";
 		}
+		LoadConfig(oc.str());
 	}
+	std::ostringstream c;
 	c << "object ApiUser \"pmuser\" {\n  password = \"pw\"\n";
 	if (l_UserPerms != "none") {
 		c << "  permissions = [\n";
